@@ -244,15 +244,28 @@ def read_cycles(h):
     from .d_c09 import Fut
     from ..models import _deref
     srv = h.choose(2, "is_server") == 1
-    eng = mk_engine(h, srv, mk_config(h, socket_type_name=string("PULL")))
+    kw = dict(socket_type_name=string("PULL"))
+    big = h.choose(2, "maxmsgsize_set") == 1
+    if big:
+        # MAXMSGSIZE set to any value that admits the peer's frames (2-byte payloads here; the handshake's own READY
+        # frame needs 28): the frames are legal, so the segmentation must still not matter
+        lim = h.bvar("maxmsgsize", 64)
+        h.assume(z3.And(z3.UGE(lim, 28), z3.ULE(lim, 64)))
+        kw["max_msg_size"] = lim
+    eng = mk_engine(h, srv, mk_config(h, **kw))
     start(h, eng)
     feed(h, eng, greeting_v3(b"NULL", 0 if srv else 1) + ready_frame(b"PUSH"))
     h.check(phase(h, eng) == "Data", "c04.reader.setup-data-phase")
-    nmsg = 1 + h.choose(2, "messages")
+    if big:
+        # one frame of 28 payload bytes: at or just below the limit, so its buffered residue approaches the limit
+        nmsg, plen = 1, 28
+    else:
+        nmsg, plen = 1 + h.choose(2, "messages"), 2
     payload = [h.byte(f"p{i}") for i in range(nmsg)]
     stream = []
     for i in range(nmsg):
-        stream += [0x00, 0x02, 0x6D, payload[i]]
+        stream += [0x00, plen, 0x6D, payload[i]] + [0x2E] * (plen - 2)
+    flen = 2 + plen
     pos = {"i": 0, "eof_seen": False}
     cuts = h.params.get("max_chunks", 3)
     def take(limit):
@@ -262,7 +275,11 @@ def read_cycles(h):
             n = 1 + h.choose(min(rem, limit), f"piece@{pos['i']}")
         else:
             # one byte, up to the end of the current frame, or everything that is left
-            opts = sorted({1, min(rem, 4 - pos["i"] % 4), rem})
+            if big:
+                # the cuts that matter for a frame at the size limit: inside the header, one byte before the end, none
+                opts = sorted({rem, max(1, rem - 1)} | ({1} if pos["i"] == 0 else set()))
+            else:
+                opts = sorted({1, min(rem, flen - pos["i"] % flen), rem})
             n = opts[h.choose(len(opts), f"piece@{pos['i']}")]
         out = stream[pos["i"]:pos["i"] + n]
         pos["i"] += n
@@ -335,10 +352,11 @@ def read_cycles(h):
         for m in _frames(a.f[0]):
             d = m.f[0]
             got.append(list(d.f[0].f) if d.idx == 1 else [])
-    ok_ = len(got) == nmsg and conj([bv(g[1], 8) == payload[i] for i, g in enumerate(got) if len(g) == 2]) if len(got) == nmsg and all(len(g) == 2 for g in got) else False
+    ok_ = len(got) == nmsg and conj([bv(g[1], 8) == payload[i] for i, g in enumerate(got) if len(g) == plen]) if len(got) == nmsg and all(len(g) == plen for g in got) else False
     h.check(ok_, "c04.reader.bytes-read-before-end-of-stream-never-reached-the-engine",
-            f"peer wrote {nmsg} complete message(s) and closed; {len(got)} delivered: the read cycle that saw the end of the stream "
-            f"in its greedy drain returned ConnectionClosed without handing the bytes it had already read to the engine")
+            f"peer wrote {nmsg} complete, legal message(s) of {plen} payload bytes and closed; {len(got)} delivered with this split of the bytes over "
+            f"awaited reads and greedy chunks (MAXMSGSIZE {'set' if big else 'unset'}, end of stream seen by the {'greedy drain' if pos['eof_seen'] else 'awaited read'}); "
+            f"the same bytes in one read are delivered")
     h.cover("c04.reader.eof-seen-by-greedy-drain", pos["eof_seen"] and closed)
     h.cover("c04.reader.all-delivered", ok_ is not False)
 
